@@ -614,8 +614,13 @@ class DataLinkConnection(TransmissionControlObject):
         if rcvd_pdu.name not in self.DLC_PDU_NAMES:
             self.err("non connection mode pdu on data link connection")
             send_pdu = pdu.FrameReject.from_pdu(rcvd_pdu, flags="W", dlc=self)
-            self.close()
-            self.send_queue.append(send_pdu)
+            with self.lock:
+                # We are called from the llc run thread. Enter SHUTDOWN first
+                # (as for a received FRMR) so that close() does not send DISC
+                # and then wait for a DM that only this thread could deliver.
+                self.state.SHUTDOWN = True
+                self.close()
+                self.send_queue.append(send_pdu)
             return
 
         if self.state.CLOSED:
